@@ -509,6 +509,7 @@ class Eval:
         s.hooks = {}                 # callee name -> python function(ev, state, args, instr) -> value
         s.nalloca = 0; s.depth = 0
         s.solver_checks = 0
+        s.branch_preds = {}          # symbolic branch conditions met during evaluation (for automatic case splits)
 
     # ---------------------------------------------------------------- helpers
     def uf(s, name, sorts, ret):
@@ -952,6 +953,8 @@ class Eval:
                     e = s.edge_state(f, b, ins.targets[0], st, BoolVal(True)); return [(b, ins.targets[0], e)] if e else []
                 c = s.const_val(ins.cond, T('int', bits=1), st)
                 c = simplify(c) if not (is_true(c) or is_false(c)) else c
+                if not (is_true(c) or is_false(c)) and len(s.branch_preds) < 64:
+                    s.branch_preds[c.get_id()] = c
                 if ins.targets[0] == ins.targets[1]:
                     e = s.edge_state(f, b, ins.targets[0], st, BoolVal(True)); return [(b, ins.targets[0], e)] if e else []
                 out = []
